@@ -176,7 +176,7 @@ EXTRA3 = {
          ' A credit that tops up the destination\'s existing NFT entry instead of storing the arriving one is reported unless it takes the arriving metadata over (equal hashes do not mean equal URIs / attributes).'),
  'C15': ('; who-may-write rule for the counter key and the create-side counter rule (shared with C07-R5 / C07-R1)',
          ' The counter entry is written only by create (stored counter + 1, read from the account) and by the hand-over.'),
- 'C12': ('; must-pass-through of a memo-dropping store on every path through a writer of the builder's function / elements (when a renderer returns a field of the builder)',
+ 'C12': ('; must-pass-through of a memo-dropping store on every path through a writer of the builder\'s function / elements (when a renderer returns a field of the builder)',
          ' The builder renders its current function and elements: a rendering kept on the builder is accepted only if every writer drops it.'),
  'C14': ('; presence tests of the generated encoders (AST: every condition on the message is the field\'s own presence test)',
          ' Whether a field is encoded is decided by the field\'s own presence test, never by a helper that looks into it (a present-but-default sub-message is written).'),
